@@ -31,8 +31,9 @@ BindKinds == {"NewBlockHashes", "NewPubkey", "NewConsolidation", "ProcessWithdra
 SizesOf(kd) == CASE kd = "NewBlockHashes" -> {1, 2, 15, 16}
                  [] kd = "ProcessWithdrawal" -> {1, 2, 31, 32}
                  [] OTHER -> {1}
-\* "swap" / "reverse": the same items in another ORDER are another payload (for sizes >= 2; a no-op change is skipped by the driver)
-FieldsOf(kd) == CASE kd = "NewBlockHashes" -> {"start", "hashFirst", "hashLast", "dropLast", "append", "swap", "reverse"}
+\* "swap" / "reverse": the same items in another ORDER are another payload (for sizes >= 2; a no-op change is skipped by the driver);
+\* "rechunk": the same BYTES cut into items of other sizes (48 + 16 instead of 32 + 32) are another payload too
+FieldsOf(kd) == CASE kd = "NewBlockHashes" -> {"start", "hashFirst", "hashLast", "dropLast", "append", "swap", "reverse", "rechunk"}
                   [] kd = "NewPubkey" -> {"key"}
                   [] kd = "NewConsolidation" -> {"tx"}
                   [] kd = "ProcessWithdrawal" -> {"idFirst", "idLast", "dropId", "appendId", "tx", "fee", "swap", "reverse"}
